@@ -12,19 +12,12 @@ open Aw
 theorem floorMs_of_dvd {t : Int} (h : 1000 ∣ t) : floorMs t = t := by
   unfold floorMs; omega
 
-/-- a sqlite row with ms-aligned start after −2^32 s (1833; in particular every instant whose
-    wall-clock date is in 1970 at some UTC offset) and end before 2^32 s decodes to itself -/
-theorem sqliteDecode_id {D} (e : Ev D) (h0 : -4294967296000000 < e.ts) (hms : 1000 ∣ e.ts) (hd : 0 ≤ e.dur)
-    (h1 : e.ts + e.dur < 4294967296000000) : sqliteDecode e = e := by
+/-- a sqlite row with a ms-aligned start decodes to itself: any instant, any duration (rows are
+    decoded with integer arithmetic since F24) -/
+theorem sqliteDecode_id {D} (e : Ev D) (hms : 1000 ∣ e.ts) : sqliteDecode e = e := by
   obtain ⟨i, t, d, x⟩ := e
-  simp only at h0 hms hd h1
-  have hs : Fl.decF (t : Rat) = t := Fl.decF_exact t h0 (by omega)
-  have hz : Fl.decF ((t : Rat) + (d : Rat)) = t + d := by
-    have := Fl.decF_exact (t + d) (by omega) h1
-    rwa [Int.cast_add] at this
-  simp only [sqliteDecode]
-  rw [hz, hs, floorMs_of_dvd hms]
-  simp only [Ev.mk.injEq, true_and, and_true]
+  simp only at hms
+  simp only [sqliteDecode, floorMs_of_dvd hms, Ev.mk.injEq, true_and, and_true]
   omega
 
 
